@@ -9,6 +9,10 @@
                                         translated `_encode` alone; `add` calls it too)
     body_c02_dddlists arg            -> "one" TAB value: the object vDDDLists(arg) (its parameters from the translated
                                         `__init__`, its text from the wrapped objects), or err:<E>
+    body_c02_ddd_params arg          -> "one" TAB value: the object vDDDTypes(arg), its parameters from the translated
+                                        `__init__` (arg one date / datetime / timedelta / time, or a pair of them)
+    body_c02_period_init arg         -> "one" TAB value: the object vPeriod(arg) for a pair, its acceptance and its
+                                        parameters from the translated `__init__`, or err:<E>
   The pieces are those of ICal/Model/AddPieces.lean.
 -/
 import ICal.Driver.Encode
@@ -69,6 +73,28 @@ def handleBodiesAdd (op : String) (args : List String) : Option String :=
         | .ok (ps, dts) => some ("one\t" ++ encVal ⟨cDDDLists, listText dts, ps⟩)
         | .error e => some (excAdd e)
     | none => some "bad-args"
+  | "body_c02_ddd_params", [arg] =>
+    match whole tArg arg with
+    | some (.one v) =>
+      -- `tzid_from_dt` of the object: the zone of the one datetime whose zone `__init__` asks for
+      let tzOf (a : PyAtom) : PyDDD → Option Str := fun o =>
+        match a, o with
+        | .dt t, .dt p => if p == (⟨t.wall.d.y, t.wall.d.m, t.wall.d.d, t.wall.h, t.wall.mi, t.wall.s⟩ : PyDateTime) then t.tzid else none
+        | _, _ => none
+      match v, mkDDD v with
+      | .atom a, .ok o => some ("one\t" ++ encVal { o with params := Bodies.dddInitParamsP (tzOf a) (Bodies.atomObjE a) })
+      | .period a b, .ok o =>
+        some ("one\t" ++ encVal { o with params := Bodies.dddInitParamsP (tzOf a) (.period (Bodies.atomObjE a) (Bodies.atomObjE b)) })
+      | _, _ => some "unmodelled"
+    | _ => some "bad-args"
+  | "body_c02_period_init", [arg] =>
+    match whole tArg arg with
+    | some (.one (.period a b)) =>
+      match Bodies.periodInitParamsP a b, mkPeriod cPeriod (.period a b) with
+      | .ok ps, .ok o => some ("one\t" ++ encVal { o with params := ps })
+      | .ok _, .error _ => some "unmodelled"
+      | .error e, _ => some (excAdd e)
+    | _ => some "bad-args"
   | _, _ => none
 
 end ICal.Driver
